@@ -558,6 +558,17 @@ class _FuncAnalysis:
                 missing = sorted(c for c in t[1] if not eng.has_attr(c, n.attr))
                 if missing and not self._guarded(n):
                     eng.problems.append(("attr", self.fi, n, n.attr, missing))
+            elif isinstance(n, ast.Call) and isinstance(n.func, ast.Name) and n.func.id == "getattr" and len(n.args) == 3 \
+                    and isinstance(n.args[1], ast.Constant) and isinstance(n.args[1].value, str):
+                # getattr(node, "slot", default): for the node kinds without that slot the default stands in for the content
+                t = self.infer(n.args[0])
+                if t is None or t[0] != "node":
+                    continue
+                t = self.narrowed(n.args[0], t)
+                eng.reads += 1
+                missing = sorted(c for c in t[1] if not eng.has_attr(c, n.args[1].value))
+                if missing:
+                    eng.problems.append(("getattr-default", self.fi, n, n.args[1].value, missing))
             elif isinstance(n, ast.Call):
                 # a str handed to a parameter annotated as a sequence of elements
                 res = self.prog.resolve_call(self.fi, n)
